@@ -67,44 +67,46 @@ def binding_demo(ctx):
     os.makedirs(os.path.join(d, "fs"))
     ev = cl.run_history(os.path.join(d, "fs"), scen, cmds)
     good = dict(scen, ev=ev)
-    demos = []
     # (a) a value of the first run altered; (b) a pull observed during a later (loading) run
     k1 = [i for i, e in enumerate(ev) if e["res"] == "val"][1]
     k2 = [i for i, e in enumerate(ev) if e["res"] == "val"][-1]
-    for k, field, val in ((k1, "v", ev[k1]["v"] + 1), (k2, "pulled", 1)):
+    plan = ((k1, "v", ev[k1]["v"] + 1), (k2, "pulled", 1))
+    recs = [good]
+    for k, field, val in plan:
         bad = dict(scen, ev=[dict(e) for e in ev])
         bad["ev"][k][field] = val
-        rejected, stats = cl.validate_shard(d, [good, bad], "demo")
-        for st in stats:
-            ctx._account("trace", "Trace_Cache", st["cfg"], cl._Res(st))
-            if st["exit"] != 0:
-                raise core.MachineryError("binding demo: TLC failed: %s" % st["tail"])
-        if 0 in rejected:
-            # the implementation itself misbehaves on this simple history (reported elsewhere): no demo
-            ctx.extra.setdefault("binding_demo", []).append("skipped: the uncorrupted history was rejected")
-            return
-        if rejected != {1: k}:
-            raise core.MachineryError("Trace_Cache does not bind: corrupted %s of event %d, rejected %r" % (
-                field, k, rejected))
-        demos.append("Trace_Cache: event %d of %d with %s corrupted rejected at index %d; uncorrupted history accepted"
-                     % (k, len(ev), field, k))
-    ctx.extra.setdefault("binding_demo", []).extend(demos)
+        recs.append(bad)
+    rejected, stats = cl.validate_shard(d, recs, "demo")      # one TLC run for the original and both corruptions
+    for st in stats:
+        ctx._account("trace", "Trace_Cache", st["cfg"], cl._Res(st))
+        if st["exit"] != 0:
+            raise core.MachineryError("binding demo: TLC failed: %s" % st["tail"])
+    if 0 in rejected:
+        # the implementation itself misbehaves on this simple history (reported elsewhere): no demo
+        ctx.extra.setdefault("binding_demo", []).append("skipped: the uncorrupted history was rejected")
+        return
+    if rejected != {1: k1, 2: k2}:
+        raise core.MachineryError("Trace_Cache does not bind: corrupted events %d and %d, rejected %r" % (k1, k2, rejected))
+    ctx.extra.setdefault("binding_demo", []).extend(
+        "Trace_Cache: event %d of %d with %s corrupted rejected at index %d; uncorrupted history accepted"
+        % (k, len(ev), field, k) for k, field, _ in plan)
 
 
 def run(ctx):
     tag = "thorough" if ctx.thorough else "quick"
     ctx.assume("pre / mid / post are one-to-one harness elements (tagging, counting, raising on demand); "
-               "flow values are picklable values in seven styles (int, (data, context), str, nested, context only, "
+               "flow values are picklable values in eight styles (int, (data, context), str, nested, context only, falsy objects, "
                "one context dict updated in place for every value, one growing list object), each identified by "
                "its snapshot at the moment it is yielded; the flow length depends on the data version")
     ctx.assume("a cache left by an interrupted run may be kept, removed, refused with an exception by a later "
                "run, or hold the complete flow - everything except a loadable proper prefix is accepted")
     ctx.mc("Cache", "Cache_%s.cfg" % tag, coverage=True, must_cover=MUST)
-    # the design of the pinned code (values written to the final name while yielding) in the same model
-    pinned = ctx.mc("Cache", "Cache_pinned.cfg", expect_violation="report")
-    ctx.extra["model_of_pinned_design"] = (
-        "Design=final_name: TLC refutes %s" % pinned.violated if pinned.violated else
-        "Design=final_name: no invariant refuted")
+    if ctx.thorough:
+        # the design of the pinned code (values written to the final name while yielding) in the same model
+        pinned = ctx.mc("Cache", "Cache_pinned.cfg", expect_violation="report")
+        ctx.extra["model_of_pinned_design"] = (
+            "Design=final_name: TLC refutes %s" % pinned.violated if pinned.violated else
+            "Design=final_name: no invariant refuted")
     # ---- spec -> code
     recs = ctx.export("Cache", "Cache_%s_export.cfg" % tag, min_records=1000)
     paths = [p for p in cl.cover_paths(recs) if p[1][-1]["cmd"] not in ("new", "data")]
@@ -116,18 +118,16 @@ def run(ctx):
                                                           for c in paths[len(paths) // 2][1]]}})
     items = [(scen, cmds, cl.STYLES[i % len(cl.STYLES)], PROTOCOLS[(i // len(cl.STYLES)) % len(PROTOCOLS)])
              for i, (scen, cmds) in enumerate(paths)]
-    cl.check_histories(ctx, items, "cover")
-    # ---- code -> spec: random longer histories
+    # ---- code -> spec: random longer histories (validated in the same wave of TLC runs)
     rnd = random.Random(ctx.seed)
-    items = []
-    for i in range(6000 if ctx.thorough else 600):
+    for i in range(6000 if ctx.thorough else 400):
         scen, cmds = random_history(rnd)
         items.append((scen, cmds, rnd.choice(cl.STYLES), rnd.choice(PROTOCOLS)))
-    cl.check_histories(ctx, items, "random")
+    cl.check_histories(ctx, items, "replay")
     binding_demo(ctx)
     return ctx.finish(
         rule="S2C: every transition of the state graph of Cache.tla (conforming design) reached by a shortest "
-             "command history, executed on real Sequence/Source/alter_sequence pipelines with 1-2 caches, continued "
-             "to the end of the run and probed by two more runs; C2S: seeded random histories (flows <= 8, <= 8 runs); "
+             "command history, executed on real Sequence / Source / alter_sequence / bare element / Split-branch pipelines with 1-2 caches, continued "
+             "to the end of the run and probed by one more run; C2S: seeded random histories (flows <= 8, <= 8 runs); "
              "every recorded history validated by Trace_Cache.tla; non-trivial = non-empty flow and more than 3 events",
         exhaustive=True)
